@@ -245,6 +245,19 @@ fn check_ssi(run: &Run, s: &Sym) {
         if (*m0, *m1) != (-s1, -s0) {
             run.fail(&format!("{key}:mirror:red={}", reduced as u8), &format!("mirror gives ({m0},{m1}), expected ({},{})", -s1, -s0), json!({"pd": s.code}));
         }
+        // the library's elimination order is hash-seeded: the same call is repeated so that an
+        // order-dependent answer is seen as a disagreement between repetitions
+        for rep in 0..3 {
+            run.add("evaluations", 2);
+            for mirror in [false, true] {
+                let want = if mirror { (*m0, *m1) } else { (*s0, *s1) };
+                match ssi(&s.code, mirror, reduced) {
+                    Ok(x) if x == want => {}
+                    Ok(x) => run.fail(&format!("{key}:repeat:m={}:red={}", mirror as u8, reduced as u8), &format!("repetition {rep} of the same call gives {x:?}, first call gave {want:?}"), json!({"pd": s.code, "mirror": mirror})),
+                    Err(e) => run.fail(&format!("{key}:repeat:m={}:red={}", mirror as u8, reduced as u8), &format!("repetition {rep} of the same call panicked: {e}"), json!({"pd": s.code, "mirror": mirror})),
+                }
+            }
+        }
         // crossing-list permutations
         let n = s.code.len();
         let perms: Vec<Vec<usize>> = if n <= 4 {
